@@ -92,11 +92,15 @@ ProofOf(q, item) == IF q = "wild" /\ item = "data" THEN {"nsecq"} ELSE {}
 \* what is delivered under a set of faults
 
 SigOps     == {"dropSig", "dropSig1", "dropSig2", "sigBit"}
-ContentOps == {"alter", "addRec", "forge", "forgeEvil", "forgeIsland", "swapKey", "wildSub"}
+ContentOps == {"alter", "addRec", "forge", "forgeEvil", "forgeIsland", "swapKey", "wildSub", "wildSubSwap"}
 WholeOps   == {"dropMsg", "childSide"}
 \* further operations:
 \*   wildSub    (target RRset of a "cname" answer) replaced by the wildcard's RRset and genuine
 \*              wildcard RRSIG with the owner renamed to the target, no NSEC added;
+\*   wildSubSwap  a history: the question is put twice to the same validator; both responses are
+\*              wildSub plus, next to the genuine wildcard RRSIG, a copy whose Labels field claims
+\*              "not expanded" (it does not verify); the two RRSIGs change places between the
+\*              responses.  Every observation of the history is judged: the data is not the zone's.
 \*   reorder    the records of the RRset are delivered in the opposite order: the order of records
 \*              inside an RRset is not signed, the item stays what it is;
 \*   foreignDs  a scripted attack on several responses at once: the DS response of zone z gets, next
@@ -111,7 +115,10 @@ WholeOps   == {"dropMsg", "childSide"}
 \*              and the answer is replaced by data signed with the child's key, the RRSIG naming
 \*              zone z as signer.  In terms of items: the DNSKEY item of z is untouched, the data is
 \*              not the zone's (RFC 4035 5.3.1: the key must be in the *signer's* apex DNSKEY RRset).
-\* Not a fault but a way of delivery (the monitor and the generator ignore it): every owner name of
+\* Not faults but ways of delivery (the monitor and the generator ignore them): "twice" -- the
+\* question is put twice to the same validator and the second time every section of every upstream
+\* response arrives in the opposite order (the order of records and RRSIGs is not signed; every
+\* observation is judged); "upper" -- every owner name of
 \* every upstream response respelled in upper case.  The letter case of owner names is not signed
 \* (RFC 4034 6.2), every item stays what it is, and so every requirement below is unchanged.
 Expand(w, F) ==
@@ -260,7 +267,7 @@ AnsFaults(w, q) ==
                                               \cup TwoKeyOps(w, w.n)}
      ELSE IF q = "cname"
      \* (the target RRset is not dropped: a resolver would simply ask for it again)
-     THEN {Flt("ANS", 0, "data", op) : op \in {"dropSig", "sigBit", "alter", "forge", "wildSub"} \cup TwoKeyOps(w, w.n)}
+     THEN {Flt("ANS", 0, "data", op) : op \in {"dropSig", "sigBit", "alter", "forge", "wildSub", "wildSubSwap"} \cup TwoKeyOps(w, w.n)}
           \cup {Flt("ANS", 0, "cname", op) : op \in {"dropSig", "alter", "forge", "dropSet"}}
      ELSE IF q = "wild"
      THEN {Flt("ANS", 0, x, op) : x \in {"data", "nsecq"}, op \in {"dropSig", "alter", "forge", "dropSet"} \cup TwoKeyOps(w, w.n)}
@@ -284,7 +291,8 @@ DsFaults(w, q) ==
                  \cup {Flt("DS", z, "soa", op) : op \in {"dropSig", "dropSet"}})
            \cup {Flt("DS", z, "msg", "dropMsg")} : z \in {i \in 2..w.n : w.signed[i - 1]}}
 
-NsFaults(w) == {Flt("NS", 0, "ns", "inject")} \cup {Flt("NS", z, "ns", "dropSet") : z \in 2..w.n}
+\* (NS, 1, inj): a forged NS RRset in the zone-cut look-up at the injected name
+NsFaults(w) == {Flt("NS", 0, "ns", "inject"), Flt("NS", 1, "inj", "inject")} \cup {Flt("NS", z, "ns", "dropSet") : z \in 2..w.n}
 
 ApplicableFaults(w, q) == AnsFaults(w, q) \cup KeyFaults(w, q) \cup DsFaults(w, q) \cup NsFaults(w)
 =============================================================================
